@@ -8,6 +8,7 @@ import (
 	"os/exec"
 	"strconv"
 	"strings"
+	"sync/atomic"
 	"time"
 )
 
@@ -43,10 +44,15 @@ type Solver struct {
 	Log       io.Writer
 	LogChecks int // number of check-sat commands logged so far
 	LogLimit  int // stop logging after this many check-sat commands (0 = no limit)
+	// log for rebuilding the stack in a replacement process (see restart)
+	decls     []string
+	hist      [][]string
+	replaying bool
 }
 
 type SolverStats struct {
 	Sat, Unsat, Unknown, Errors int
+	Killed                      int // queries ended by the watchdog (counted as unknown)
 	Time                        time.Duration
 	MaxQuery                    time.Duration
 }
@@ -127,8 +133,55 @@ func (s *Solver) send(line string) {
 	if s.Log != nil && (s.LogLimit == 0 || s.LogChecks < s.LogLimit) {
 		fmt.Fprintln(s.Log, line)
 	}
+	if !s.replaying {
+		// what a restarted solver process has to be told again (see restart)
+		switch {
+		case strings.HasPrefix(line, "(declare-"):
+			s.decls = append(s.decls, line)
+		case strings.HasPrefix(line, "(assert "):
+			for len(s.hist) <= s.level {
+				s.hist = append(s.hist, nil)
+			}
+			s.hist[s.level] = append(s.hist[s.level], line)
+		}
+	}
 	io.WriteString(s.in, line)
 	io.WriteString(s.in, "\n")
+}
+
+// restart replaces a solver process that was killed by the watchdog (a query
+// that ignored its own time limit) and rebuilds the assertion stack from the
+// log: declarations, then the assertions of every level with the pushes
+// between them.
+func (s *Solver) restart() error {
+	if s.cmd != nil {
+		s.in.Close()
+		s.cmd.Process.Kill()
+		s.cmd.Wait()
+		s.cmd = nil
+	}
+	level, declared, rangeLvl, lvlRanges := s.level, s.declared, s.rangeLvl, s.lvlRanges
+	if err := s.start(); err != nil {
+		return err
+	}
+	s.declared, s.rangeLvl, s.lvlRanges = declared, rangeLvl, lvlRanges
+	s.replaying = true
+	for _, d := range s.decls {
+		s.send(d)
+	}
+	for l := 0; l <= level; l++ {
+		if l < len(s.hist) {
+			for _, a := range s.hist[l] {
+				s.send(a)
+			}
+		}
+		if l < level {
+			s.send("(push 1)")
+		}
+	}
+	s.replaying = false
+	s.level = level
+	return nil
 }
 
 func (s *Solver) Level() int { return s.level }
@@ -152,6 +205,9 @@ func (s *Solver) PopTo(level int) {
 	}
 	s.lvlRanges = s.lvlRanges[:level+1]
 	s.level = level
+	if len(s.hist) > level+1 {
+		s.hist = s.hist[:level+1]
+	}
 }
 
 func (s *Solver) render(t *Term) string {
@@ -237,10 +293,39 @@ func (s *Solver) Check() Verdict {
 	s.send("(check-sat)")
 	errSeen := false
 	var v Verdict
+	// watchdog: a query that ignores the solver's own time limit (seen: one z3
+	// query running for hours under :timeout 120000) is killed after three
+	// times the limit; the verdict is "unknown", the process is replaced and
+	// the assertion stack rebuilt
+	var fired atomic.Bool
+	if s.TimeoutMs > 0 && s.cmd != nil {
+		proc := s.cmd.Process
+		delay := 3*time.Duration(s.TimeoutMs)*time.Millisecond + 15*time.Second
+		if e := os.Getenv("VSYM_WATCHDOG_MS"); e != "" { // for testing the restart path
+			if ms, err := strconv.Atoi(e); err == nil {
+				delay = time.Duration(ms) * time.Millisecond
+			}
+		}
+		wd := time.AfterFunc(delay, func() {
+			fired.Store(true)
+			proc.Kill()
+		})
+		defer wd.Stop()
+	}
 	for {
 		line, err := s.readLine()
 		if err != nil {
-			// solver died: restart lazily is not possible (stack lost); report error
+			if fired.Load() {
+				s.Stats.Unknown++
+				s.Stats.Killed++
+				s.Stats.Time += time.Since(t0)
+				if rerr := s.restart(); rerr != nil {
+					s.Stats.Errors++
+					return Error
+				}
+				return Unknown
+			}
+			// solver died: report error
 			s.Stats.Errors++
 			return Error
 		}
